@@ -160,6 +160,7 @@ type Engine struct {
 	facts          map[string]bool
 	parseResult    *Value
 	parseBroken    bool // the key-set file holds an entry the library cannot parse
+	inEffectsRun   bool
 	depthIsFinding bool
 	domHits        int
 	bufs           map[*Value][]bufSeg
@@ -435,6 +436,7 @@ func (e *Engine) resetPath(prefix []bool) {
 	e.facts = map[string]bool{}
 	e.parseResult = nil
 	e.parseBroken = false
+	e.inEffectsRun = false
 	e.depthIsFinding = false
 	e.bufs = map[*Value][]bufSeg{}
 	e.sbufs = map[*Value]StrVal{}
